@@ -41,6 +41,23 @@ type Case struct {
 	SharedClient bool    `json:"shared_client"`
 	Instances    int     `json:"instances"`
 	Long         bool    `json:"long_file,omitempty"`
+	// shared-client.client-number: 0 = 2 (cases recorded before the field existed), -1 = not written (the documented
+	// default, 1), otherwise the number written
+	ClientNumber int `json:"client_number,omitempty"`
+	// reflect_port is set to the port of a second listener that serves ONLY reflection ("If your reflection service is
+	// located on a port other than the main server", docs/eng/grpc-generator.md); the service is on the target port
+	ReflectPort bool `json:"reflect_port,omitempty"`
+}
+
+// clients is the number of shared clients the case's configuration asks for.
+func (c Case) clients() int {
+	switch {
+	case c.ClientNumber == 0:
+		return 2
+	case c.ClientNumber < 0:
+		return 1
+	}
+	return c.ClientNumber
 }
 
 var strPool = []string{"", "a", "user name", "пользователь", "日本", "q\"uote", "back\\slash", "tab\there", "{{not a template}}", "x y z"}
@@ -206,6 +223,12 @@ func genCase(t *rapid.T) Case {
 	}
 	c.SharedClient = rapid.Bool().Draw(t, "sharedClient")
 	c.Instances = rapid.IntRange(1, 4).Draw(t, "instances")
+	// the number of shared clients: not written (default 1), or 1-3; and in two cases out of five the reflection
+	// service is on a port of its own (reflect_port), whatever the other options are
+	if c.SharedClient {
+		c.ClientNumber = rapid.SampledFrom([]int{-1, 1, 2, 2, 3}).Draw(t, "clientNumber")
+	}
+	c.ReflectPort = rapid.IntRange(0, 4).Draw(t, "reflectPort") < 2
 	return c
 }
 
@@ -250,7 +273,17 @@ func check(c Case, o *vf.Obs) error {
 	defer pand.Remove(out)
 	gun := map[string]any{"type": "grpc", "target": tg.Addr(), "timeout": fmt.Sprintf("%dms", c.TimeoutMs)}
 	if c.SharedClient {
-		gun["shared-client"] = map[string]any{"enabled": true, "client-number": 2}
+		sc := map[string]any{"enabled": true}
+		if c.ClientNumber >= 0 {
+			sc["client-number"] = c.clients()
+		}
+		gun["shared-client"] = sc
+	}
+	var rf *target.GRPCReflect
+	if c.ReflectPort {
+		rf = target.SharedGRPCReflect() // used under the shared target's lock
+		rf.Reset()
+		gun["reflect_port"] = rf.Port()
 	}
 	pool := map[string]any{
 		"id": "p", "gun": gun,
@@ -299,6 +332,16 @@ func check(c Case, o *vf.Obs) error {
 		}
 	}
 	timedOutUnseen := 0
+	// ---- reflect_port: the other port serves the reflection, the target port gets the calls ----
+	if rf != nil {
+		if stray := rf.Stray(); len(stray) > 0 {
+			return fmt.Errorf("%d calls (first: %s) arrived at the reflection port %d; the gun's target is %s and reflect_port is only where the reflection service is (shared-client %v, %d clients, %d instances)",
+				len(stray), stray[0], rf.Port(), tg.Addr(), c.SharedClient, c.clients(), c.Instances)
+		}
+		if rf.Streams() == 0 {
+			return fmt.Errorf("reflect_port is set to %d but no reflection stream was opened on that port", rf.Port())
+		}
+	}
 	// ---- what the server saw ----
 	calls := tg.Calls()
 	byEntry := map[int][]target.GCall{}
@@ -413,6 +456,12 @@ func check(c Case, o *vf.Obs) error {
 	o.ClassIf(stalls > 0, "stalled_call")
 	o.ClassIf(c.Instances >= 2, "instances_ge_2")
 	o.ClassIf(c.SharedClient, "shared_client")
+	o.ClassIf(c.SharedClient && c.ClientNumber < 0, "shared_client_default_client_number")
+	o.ClassIf(c.SharedClient && c.clients() >= 2 && c.Instances >= c.clients(), "shared_clients_ge_2_all_used")
+	o.ClassIf(c.ReflectPort, "reflect_port")
+	o.ClassIf(c.ReflectPort && !c.SharedClient, "reflect_port_client_per_instance")
+	// every one of the N shared clients is some instance's client: whichever of them were dialled wrongly, it shows
+	o.ClassIf(c.ReflectPort && c.SharedClient && c.Instances >= c.clients(), "reflect_port_shared_client_all_clients_used")
 	for _, e := range c.Entries {
 		if e.Invalid != "" {
 			o.Class("invalid_" + e.Invalid)
